@@ -11,12 +11,22 @@
   batch = ins <uuidhex>:<node id the implementation allocated, 0 = unknown>:<dochex> ...
         | upd <uuidhex>:<size of merged document>:<merged dochex> ...
         | del <uuidhex> ...            (in the order the implementation processed them)
+  caches <ok|err|commit> <pre> <touch> <gone>   the cache transaction of a batch against shard/cache/manager.go  → "K:<names>" | "E:<names>"
+      pre = names of the shared caches the manager held before the batch, touch = the caches the whole batch opens
+      (`cacheTx.With(name, false, …)`), gone = the caches of `pre` the implementation no longer holds (used for `err`
+      only: how far the concurrent stages got when one failed is a race, DESIGN 3.3; it must be ⊆ touch).  Each a
+      comma-separated list or "-".  The model runs the cache steps (`Step.cache` through `runBatch` of Model.lean,
+      AND `TStep.openFlat` through `exec` / `abortWith` of ObserveModel.lean — the bookkeeping the theorems of
+      Props.lean / ObserveProps.lean talk about) and prints the names the manager holds afterwards, sorted:
+      ok → every opened cache kept; commit (the closure returned nil, the commit failed) → every opened cache dropped;
+      err → the reached caches dropped; every other cache untouched.
   digest = "<points>/<fnv64>" over: every p<uuid>i entry in key order (uuid, document reached through
   the node id, whether n<id>i points back), size of the points bucket, pointCount, nextFreeNodeId,
   number of free node ids — the same function as go/cmd/c07/canon.go `digests`.
 -/
 import SemaModel.Base.DriverUtil
 import SemaModel.C07.Model
+import SemaModel.C07.ObserveModel
 namespace Sema.C07
 open Sema
 
@@ -114,10 +124,55 @@ def isDup : BatchSpec → Bool
   | .ins items => hasDup (items.map (·.uuid))
   | _ => false
 
+/-! ### the cache transaction (`caches` lines) -/
+
+def namesOf (s : String) : List String := if s == "-" then [] else (s.splitOn ",").filter (· != "")
+
+def insertName (a : String) : List String → List String
+  | [] => [a]
+  | x :: l => if a < x then a :: x :: l else if a == x then x :: l else x :: insertName a l
+
+def sortNames (l : List String) : List String := l.foldr insertName []
+
+def showNames (l : List String) : String :=
+  match sortNames l with
+  | [] => "-"
+  | s => ",".intercalate s
+
+/-- Model.lean: the batch writes the caches `written` (`Step.cache`), then — for an error inside the closure —
+a stage fails; for `commit` the fault position is the commit.  Result: error reported?, names in the manager. -/
+def cachesByModel (res : String) (pre written : List String) : Bool × List String :=
+  let prog : Prog := written.map (fun n => Step.cache n 1) ++ (if res == "err" then [.index false] else [])
+  let fault := if res == "commit" then some (opsOf prog).length else none
+  let r := runBatch { disk := [], caches := pre.map fun n => (n, 0) } prog fault
+  (r.2.isSome, r.1.caches.map (·.1))
+
+/-- ObserveModel.lean: the same through `exec` (`openFlat` = `cacheTx.With(name, false, …)`) and
+`Commit(fail)` (`abortWith` drops `writtenCaches`) -/
+def cachesByObserve (res : String) (pre written : List String) : List String :=
+  let s : Obs.ShardWithCaches Unit Unit := { rs := {}, caches := pre.map fun n => ([n], C08.Cache.empty) }
+  let t := (Obs.exec none ({} : Compose.RState Unit Unit) (written.map fun n => Obs.TStep.openFlat [n]) (Obs.startTx s s.rs)).1
+  let after := if res == "ok" then t.caches else (Obs.abortWith s t).caches
+  after.map fun e => ".".intercalate e.1
+
+def cachesLine (res : String) (pre touch gone : List String) : String :=
+  if res != "ok" && res != "commit" && res != "err" then "bad-op"
+  else
+    let stray := gone.filter fun n => !touch.contains n
+    if res == "err" && !stray.isEmpty then s!"E:dropped-but-not-opened({showNames stray})"
+    else
+      let written := if res == "err" then gone else touch
+      let m := cachesByModel res pre written
+      let o := cachesByObserve res pre written
+      let tag := if m.1 then "E:" else "K:"
+      let out := tag ++ showNames m.2
+      if sortNames m.2 == sortNames o && m.1 == (res != "ok") then out else out ++ "!models-differ(" ++ showNames o ++ ")"
+
 def step (st : DState) (line : String) : DState × String :=
   let ws := (line.trimAscii.toString.splitOn " ").filter (· != "")
   match ws with
   | ["maxsize", n] => ({ st with maxSize := n.toNat?.getD 0 }, "-")
+  | ["caches", res, pre, touch, gone] => (st, cachesLine res (namesOf pre) (namesOf touch) (namesOf gone))
   | "trace" :: rest =>
     match parseBatch rest with
     | some b => (st, traceDigest (progOf st b []))
